@@ -33,6 +33,16 @@ theorem async_eq_sync (root : Fields) :
     ∧ (execute root.sync).2.2 = 0 := by
   simp [execute, execFields_run, execFields_polls, Fields.sync_resp, Fields.sync_calls, Fields.sync_delays]
 
+/-- **Any two schedules agree**: two requests that differ only in the pending-poll counts assigned to their
+    resolver futures and list-item streams (same synchronous skeleton) give the same response and the same
+    resolver call log — the property's quantifier stated directly, without going through the synchronous run. -/
+theorem schedule_irrelevant (a b : Fields) (h : a.sync = b.sync) :
+    (execute a).1 = (execute b).1 ∧ (execute a).2.1 = (execute b).2.1 := by
+  have ha := async_eq_sync a
+  have hb := async_eq_sync b
+  rw [ha.1, ha.2.1, hb.1, hb.2.1, h]
+  exact ⟨rfl, rfl⟩
+
 /-- the synchronous world never returns `Pending` (`execute_sync`'s `now_or_never().expect(..)` cannot fail) -/
 theorem sync_never_pending (root : Fields) (log : Log) : Fut.polls (execFields "" root.sync log) = 0 := by
   rw [execFields_polls, Fields.sync_delays]
